@@ -912,8 +912,10 @@ int parity_read(struct snapraid_parity_handle* handle, block_off_t pos, unsigned
 		/* LCOV_EXCL_STOP */
 	}
 
-	/* if read is completely out of the valid range */
-	if (offset >= split->valid_size) {
+	/* if read is not completely inside the valid range */
+	/* a partial block at the end of a truncated file is not valid parity, */
+	/* even if the file was grown again and the missing part now reads as zero */
+	if (offset + block_size > split->valid_size) {
 		/* LCOV_EXCL_START */
 		out("Missing data reading file '%s' at offset %" PRIu64 " for size %u.\n", split->path, offset, block_size);
 		return -1;
